@@ -1533,3 +1533,63 @@ func scenPromoteIdle(e *engineA) error {
 	}
 	return e.finish()
 }
+
+func init() { scenarios["readd-removed"] = scenReaddRemoved }
+
+// scenReaddRemoved (C17): a member is removed and shuts itself down; the
+// cluster goes on; later the same node, with its old storage, is added again
+// and started by the operator. It must be brought up to date like any other
+// lagging node.
+func scenReaddRemoved(e *engineA) error {
+	e.prof = profiles["member"]
+	if err := e.boot(3 + e.rng.Intn(2)); err != nil {
+		return err
+	}
+	e.cl.startInfoSampler(e.hb() / 2)
+	l := e.cl.leader()
+	if l == nil {
+		return fmt.Errorf("no leader")
+	}
+	for i := 0; i < 5+e.rng.Intn(20); i++ {
+		e.cl.fsmOp(1, l, "update")
+	}
+	fs := e.others(l)
+	x := fs[e.rng.Intn(len(fs))]
+	act := raft.Remove
+	if e.rng.Intn(3) == 0 {
+		act = raft.ForceRemove
+	}
+	e.rc.emit(&ev.Rec{K: "fault", Op: fmt.Sprintf("%v-then-add-again", act), Nid: x.nid})
+	// under load the replication pipeline is busy: the entry that removes the
+	// node can reach it before the leader stops talking to it
+	e.startClients(4, map[string]int{"update": 1})
+	e.sleepHB(1, 2)
+	if err := e.cl.changeConfig(l, fmt.Sprintf("%v(%d)", act, x.nid), func(c *raft.Config) error { return c.SetAction(x.nid, act) }); err != nil {
+		return fmt.Errorf("remove: %v", err)
+	}
+	e.waitFor(60, func() bool {
+		info, ok := l.info(false)
+		_, in := info.Configs.Latest.Nodes[x.nid]
+		return ok && !in && info.Configs.IsCommitted()
+	})
+	e.waitFor(40, func() bool { return atomic.LoadInt32(&x.exited) != 0 })
+	if atomic.LoadInt32(&x.exited) == 0 {
+		// (a removed node may not learn of it: the operator stops it)
+		x.shutdown(30 * time.Second)
+	}
+	e.sleepHB(1, 6)
+	e.stopLoad()
+	e.stopClients = make(chan struct{})
+	promote := e.rng.Intn(2) == 0
+	if err := e.cl.changeConfig(l, fmt.Sprintf("add(%d,promote=%v) again", x.nid, promote), func(c *raft.Config) error {
+		return c.AddNonvoter(x.nid, e.cl.addrOf(x.nid), promote)
+	}); err != nil {
+		return fmt.Errorf("add again: %v", err)
+	}
+	if _, err := e.cl.start(x.nid, x.dir); err != nil {
+		e.rc.emit(&ev.Rec{K: "restart-failed", Cid: e.cl.cid, Nid: x.nid, Err: err.Error()})
+	}
+	e.startClients(2, map[string]int{"update": 3, "read": 1})
+	e.sleepHB(4, 8)
+	return e.finish()
+}
